@@ -170,3 +170,9 @@ def run(repo: Repo, chk: Check) -> None:
                what=f'{name}: the size priced is that of a content whose {[d["field"] for d in diffs][:3]} still differ(s) from what is written '
                     f'({diffs[:1]}): the operation injected is longer than the one paid for')
     chk.minimum('size measurements', nmeas, 6)
+
+    # ---- memory across calls (shared rule, sa/statelint.py) ----------------------------------------------------------------------------------
+    chk.set_clause('C24.M')
+    from ..statelint import check_memory
+    check_memory(repo, chk, ['pytezos.operation.fees.', 'pytezos.operation.group.'],
+                 'the gas / size priced is the one of an earlier operation')
